@@ -453,10 +453,18 @@ func (it *element[T]) wait(ctx context.Context, direction dqDirection) error {
 	// a new item. The addAfter method signals both forward and
 	// reverse waiters when the queue is empty.
 	switch {
-	case (direction == dqPrev) && it.prev.isRoot():
+	case it.isRoot() && direction == dqPrev:
 		cond = it.list.nback
-	case (direction == dqNext) && it.next.isRoot():
+	case it.isRoot() && direction == dqNext:
 		cond = it.list.nfront
+	case (direction == dqPrev) && it.prev.isRoot():
+		// (an iterator at) the first element moving towards the
+		// front: its predecessor changes when an item is pushed
+		// at the front.
+		cond = it.list.nfront
+	case (direction == dqNext) && it.next.isRoot():
+		// the last element, moving towards the back.
+		cond = it.list.nback
 	default:
 		cond = it.list.updates
 	}
